@@ -33,6 +33,18 @@ CHECKS = {
          "Model-based histories over ingest / force_flush / evict_cache / restart on an on-disk database with combine factors that compact 1..k partitions at every flush; after every step every table is read back in full (SELECT *, explicit columns, count and a filter probe) and compared with the model of acknowledged batches, so any maintenance step that changes content is caught at the step that caused it.",
          "DESIGN.md 4 C07", "Model = concatenation of acknowledged batches (model.rs); compaction is observed through the compact.begin sync point for the non-triviality count only.",
          "model-based (stateful) property-based testing with proptest: vec(op) interpreted against the database and a reference model"),
+ "C08": ("exploration",
+         "Model-based histories over ingest(any subset of 1-3 tables) / force_flush / restart with small max_wal_files / max_wal_size_bytes (background flushes fire, ingestion may wait) and io_threads 1/4; after every restart, at the end and after one extra final restart the table list, each table's column list and all rows in order must equal the model of acknowledged requests: nothing lost, nothing twice.",
+         "DESIGN.md 4 C08", "Clean restart = drop, wait for the old instance's flush thread to exit (sync point walthread.exit), reopen; in-flight background flushes are waited out before the handle is dropped.",
+         "model-based (stateful) property-based testing with proptest against a reference model"),
+ "C13": ("exploration",
+         "Model-based histories of batches with arbitrary column subsets from an adversarial name pool (case pairs, non-ASCII, > 64 bytes, first/last in sort order, prefixes) over 1-3 tables, interleaved with flush/compaction/restart; after every step SELECT *, the per-table column catalogue and the table catalogue must list every name ever ingested exactly once and every cell must equal the model (NULL where a batch did not mention the column).",
+         "DESIGN.md 4 C13", "Column names containing a double quote are not generated; each name keeps one value type.",
+         "model-based (stateful) property-based testing with proptest against a reference model"),
+ "C18": ("exploration",
+         "Histories of ingest / force_flush (and restart) under every compaction factor, sub-partition size, io_threads and wal_flush_compaction_threads, plus a family where max_wal_size_bytes is tiny so ingestion must wait for the background flush. After each completed force_flush the recursive directory listing must equal {meta} plus exactly the partition files the catalogue names, the accounted WAL size must be 0 and no WAL id may be unflushed; every ingestion must return within the deadline.",
+         "DESIGN.md 4 C18", "Catalogue and WAL accounting are read through hook H4 accessors; file names are computed with the crate's own helpers re-exported by hook H3; observations that overlap a background flush are retried.",
+         "model-based property-based testing with proptest; validity predicate over the directory listing (invariant oracle)"),
 }
 
 NOT_YET = {
